@@ -1,5 +1,5 @@
 (* Strings as byte sequences; strings.Split as used by lime-go's text forms. *)
-From Coq Require Import List Bool Ascii String Arith Lia.
+From Coq Require Import List Bool Ascii String Arith NArith Lia.
 Import ListNotations.
 Open Scope string_scope.
 
@@ -25,8 +25,8 @@ Definition nth_str (l : list string) (n : nat) : string := nth n l EmptyString.
 
 (* ASCII lower-casing, for encoding/json's case-insensitive member lookup *)
 Definition lower_ascii (a : ascii) : ascii :=
-  let n := nat_of_ascii a in
-  if ((65 <=? n)%nat && (n <=? 90)%nat)%bool then ascii_of_nat (n + 32) else a.
+  let n := N_of_ascii a in
+  if ((65 <=? n)%N && (n <=? 90)%N)%bool then ascii_of_N (n + 32) else a.
 Fixpoint lower (s : string) : string :=
   match s with EmptyString => EmptyString | String a s' => String (lower_ascii a) (lower s') end.
 Definition fold_eqb (a b : string) : bool := String.eqb (lower a) (lower b).
